@@ -265,6 +265,11 @@ pub fn run(env: &Env) -> PropRun {
         None
     };
     parts.push(run_part(env, "enum-origin-mode", ototal, true, &format!("sizes {{2x4,3x3}} with origin mode on x every margin pair x 2 charset set-ups x insert on/off x every start cell incl. wrap-pending x all op sequences of length {}", len), &omake, &j));
+    {
+        use gen::*;
+        let gl = |src: &mut Src, _i: usize| large_case(src, true, &[(CAT_TEXT, 12), (CAT_FILL, 4), (CAT_REP, 4), (CAT_CHARSET, 2), (CAT_ANSIMODE, 2), (CAT_DECMODE, 2), (CAT_C0, 2), (CAT_CUP, 3), (CAT_STBM, 1)], 12);
+        parts.push(random_part(env, "large-screens", env.tier.scale(250, 40), &gl, &j));
+    }
     parts.push(random_part(env, "pending-resize", env.tier.scale(40_000, 30), &gen_pending_resize, &j));
     parts.push(random_part(env, "random-histories", env.tier.scale(60_000, 40), &gen_random, &j));
     PropRun {
